@@ -47,6 +47,7 @@ type C15Plan struct {
 	Sweep     bool       `json:"sweep,omitempty"` // fsize = every n in 0..len(output)
 	PreExist  bool       `json:"pre_exist,omitempty"`
 	PreLink   bool       `json:"pre_link,omitempty"` // the pre-existing -o name is a symbolic link to the existing file
+	PreEmpty  bool       `json:"pre_empty,omitempty"` // the pre-existing file has length 0
 	SameAs    string     `json:"same_as,omitempty"`  // -o names: input | identity | recipients
 	Spelling  string     `json:"spelling,omitempty"` // dot | dotdot | abs | plain
 	Umask     int        `json:"umask,omitempty"`
@@ -167,6 +168,7 @@ func (C15) Generate(r *core.RNG, tier string, idx uint64) interface{} {
 	case 7:
 		p.PreExist = true
 		p.PreLink = r.Chance(1, 3)
+		p.PreEmpty = r.Chance(1, 2)
 		p.OutVia = "file"
 	}
 	if p.Op == "keygen-race" {
@@ -230,6 +232,9 @@ func (C15) Shrinks(plan interface{}) []interface{} {
 	}
 	if p.PreExist {
 		add(func(q *C15Plan) { q.PreExist = false })
+	}
+	if p.PreEmpty {
+		add(func(q *C15Plan) { q.PreEmpty = false })
 	}
 	if p.Umask != 0 {
 		add(func(q *C15Plan) { q.Umask = 0 })
@@ -580,6 +585,9 @@ func (e C15) one(p *C15Plan, fault OutFault, c *core.Ctx, ageBin, kgBin string, 
 	var closeRead *os.File
 	fsize := -1
 	pre := []byte("PRE-EXISTING CONTENT THAT MUST SURVIVE A REFUSAL\n")
+	if p.PreEmpty {
+		pre = []byte{} // a name reserved beforehand (mktemp): still must be neither removed nor replaced
+	}
 	sameTarget := ""
 	switch {
 	case p.SameAs != "":
